@@ -40,6 +40,9 @@ def userinfoOf (s : String) : Option (Option Userinfo) :=
       → `ok <hex>`   `invalid argument … for "<flag>" flag: ` as printed for a rejected value
   cacerterr <raw hex>
       → `ok <hex>`   the error of a start-up whose --cacert-file value holds no certificate
+  tlsload <--tls-cert-file raw hex> <--tls-key-file raw hex>          (`_` = flag not given)
+      → `ok <cert hex> <key hex>`   the cert and key attributes of the debug record "loading TLS certificate"
+      → `none`                      neither flag given: the record is not written
 -/
 def handle : List String → String
   | ["describe", fmt, flag, raws] =>
@@ -61,6 +64,13 @@ def handle : List String → String
     match bytesOfHex raw with
     | some r => s!"ok {hexOfBytes (caCertErrorText r)}"
     | none => "bad-op"
+  | ["tlsload", cert, key] =>
+    match bytesOfHex cert, bytesOfHex key with
+    | some c, some k =>
+      match tlsLoadAttrs c k with
+      | some a => s!"ok {hexOfBytes a.cert} {hexOfBytes a.key}"
+      | none => "none"
+    | _, _ => "bad-op"
   | ["absent", secret, text] =>
     match bytesOfHex secret, bytesOfHex text with
     | some s, some t => if isInfix s t then "false" else "true"
